@@ -419,6 +419,204 @@ fn fixed() -> Vec<Case> {
     out
 }
 
+// ------------------------------------------------------------------ cross-check with the real binary
+// The start-up decision lives in src/bin/main.rs, which the harness restates (node.rs). Here the REAL binary is
+// started on a copy of a data directory and what it leaves behind is compared with what the restatement leaves
+// behind on another copy: a change to main.rs that the restatement does not follow shows up as a difference.
+
+fn file_state(dir: &str) -> BTreeMap<String, (u64, u64)> {
+    use std::hash::{Hash, Hasher};
+    let mut out = BTreeMap::new();
+    let mut names = vec!["keys-nun.keys".to_string(), "is-oplog.valid".to_string(), "oplog-nun.op".to_string()];
+    if let Ok(rd) = std::fs::read_dir(format!("{}/oplog", dir)) {
+        for e in rd.flatten() {
+            names.push(format!("oplog/{}", e.file_name().to_string_lossy()));
+        }
+    }
+    for n in names {
+        if let Ok(bytes) = std::fs::read(format!("{}/{}", dir, n)) {
+            let mut h = std::collections::hash_map::DefaultHasher::new();
+            bytes.hash(&mut h);
+            // rotated file names carry a wall-clock id: compare them by content only
+            let key = if n.starts_with("oplog/") { format!("oplog/<rotated:{}B>", bytes.len()) } else { n };
+            out.insert(key, (bytes.len() as u64, h.finish()));
+        }
+    }
+    out
+}
+
+pub fn binary_path() -> String {
+    std::env::var("NV_NUNDB_BIN").unwrap_or_else(|_| "/repo/target/debug/nun-db".to_string())
+}
+
+/// starts the real binary on `dir`, waits until its TCP port answers (the start-up block is then over) or it exits, kills it
+const POST_START_SCRIPT: &str = "auth admin-user admin-pwd\ncreate-db xcheck xtoken\nuse-db xcheck xtoken\nset xk v\n";
+
+fn run_real_binary(dir: &str, mut after_start: Option<&mut BTreeMap<String, (u64, u64)>>, expected_after_script: &BTreeMap<String, (u64, u64)>) -> Result<(), String> {
+    let (tcp, http, ws) = (crate::transport::free_port(), crate::transport::free_port(), crate::transport::free_port());
+    let mut child = std::process::Command::new(binary_path())
+        .args(["-u", crate::node::USER, "-p", crate::node::PWD, "start", "--tcp-address", &format!("127.0.0.1:{}", tcp), "--http-address", &format!("127.0.0.1:{}", http), "--ws-address", &format!("127.0.0.1:{}", ws)])
+        .env("NUN_DBS_DIR", dir)
+        .env("NUN_LOG_LEVEL", "Off")
+        .env_remove("NUN_STORAGE_STRATEGY")
+        .stdout(std::process::Stdio::null())
+        .stderr(std::process::Stdio::null())
+        .spawn()
+        .map_err(|e| format!("cannot start {}: {}", binary_path(), e))?;
+    let t0 = std::time::Instant::now();
+    let mut result = Err("the binary neither listened nor exited within 20 s".to_string());
+    while t0.elapsed() < std::time::Duration::from_secs(20) {
+        if let Ok(Some(st)) = child.try_wait() {
+            result = Err(format!("the real binary exited during start-up: {}", st));
+            break;
+        }
+        if std::net::TcpStream::connect(("127.0.0.1", tcp)).is_ok() {
+            // give the replication loop the instant it needs to open its files
+            crate::transport::real_sleep(std::time::Duration::from_millis(60));
+            if let Some(state_after_start) = after_start.as_mut() {
+                **state_after_start = file_state(dir);
+                // what the node believes about its op-log shows only in what the next new key does to the files
+                // (a lone node makes itself primary one second after start-up; until then create-db is refused)
+                let mut answer = String::new();
+                let t1 = std::time::Instant::now();
+                while t1.elapsed() < std::time::Duration::from_secs(8) {
+                    answer = crate::transport::tcp_exchange(tcp, POST_START_SCRIPT.as_bytes(), 300, 3000).unwrap_or_default();
+                    if answer.contains("create-db success") {
+                        break;
+                    }
+                    crate::transport::real_sleep(std::time::Duration::from_millis(150));
+                }
+                if !answer.contains("create-db success") {
+                    result = Err(format!("the real binary did not run the post-start script: {:?}", answer));
+                    break;
+                }
+                let t2 = std::time::Instant::now();
+                while t2.elapsed() < std::time::Duration::from_secs(6) && by_len(file_state(dir)) != *expected_after_script {
+                    crate::transport::real_sleep(std::time::Duration::from_millis(40));
+                }
+            }
+            result = Ok(());
+            break;
+        }
+        crate::transport::real_sleep(std::time::Duration::from_millis(10));
+    }
+    let _ = child.kill();
+    let _ = child.wait();
+    result
+}
+
+/// after the script the op-log holds records with wall-clock times: compared by length only
+fn by_len(m: BTreeMap<String, (u64, u64)>) -> BTreeMap<String, (u64, u64)> {
+    m.into_iter().map(|(k, (l, h))| if k.starts_with("oplog") { (k, (l, 0)) } else { (k, (l, h)) }).collect()
+}
+
+pub fn cross_check_dir(src: &str, scratch: &str) -> Option<(String, String)> {
+    let (a, b) = (format!("{}/real", scratch), format!("{}/restated", scratch));
+    let _ = std::fs::remove_dir_all(scratch);
+    crash::copy_dir(std::path::Path::new(src), std::path::Path::new(&a));
+    crash::copy_dir(std::path::Path::new(src), std::path::Path::new(&b));
+    let before = file_state(src);
+    let mut restated_after_start = BTreeMap::new();
+    let restated = probe_boot(&b).and_then(|_| {
+        let mut n = Node::boot(&b, "127.0.0.1:3017", 1);
+        n.pump();
+        restated_after_start = file_state(&b);
+        // the lone node elects itself (one second after start-up in the real binary)
+        nundb::election_ops::start_election(&n.dbs);
+        n.pump();
+        let mut s = Session::new();
+        for line in POST_START_SCRIPT.lines() {
+            s.send(&n, line);
+            n.pump();
+        }
+        drop(n);
+        Ok(())
+    });
+    // the real binary writes its op-log on another thread: it is given up to 6 s to reach the state the restatement
+    // reached (a state that stays different is the finding, slowness is not)
+    let expected_after_script = by_len(file_state(&b));
+    let mut real_after_start = BTreeMap::new();
+    let real = run_real_binary(&a, Some(&mut real_after_start), &expected_after_script);
+    let out = match (&real, &restated) {
+        (Err(e), Ok(())) if e.contains("exited during start-up") => Some(("C16|real-binary-start-up-fails-where-the-restatement-succeeds".to_string(), format!("{} (directory state before: {:?})", e, before))),
+        (Ok(()), Err(e)) => Some(("C16|restatement-fails-where-the-real-binary-starts".to_string(), e.clone())),
+        (Err(e), _) => {
+            if !e.contains("exited during start-up") {
+                eprintln!("C16 cross-check inconclusive: {}", e);
+            }
+            None
+        }
+        (Ok(()), Ok(())) => {
+            // after the script the op-log holds records with wall-clock times: compared by length only
+            let (fa, fb) = (by_len(file_state(&a)), by_len(file_state(&b)));
+            if std::env::var("NV_C16_DEBUG").is_ok() {
+                eprintln!("cross-check: before {:?}\n  after start: real {:?} restated {:?}\n  after script: real {:?} restated {:?}", before, real_after_start, restated_after_start, fa, fb);
+            }
+            if real_after_start != restated_after_start {
+                Some(("C16|real-binary-and-restatement-leave-different-op-log-state".to_string(), format!("before: {:?}\n real binary: {:?}\n restatement: {:?}", before, real_after_start, restated_after_start)))
+            } else if fa != fb {
+                Some(("C16|real-binary-and-restatement-differ-after-the-first-new-key".to_string(), format!("after start-up both directories held {:?}; after `create-db xcheck; set xk v` the real binary left {:?}, the restatement {:?} (flag file / op-log length differ: the two disagree on whether the op-log was valid)", real_after_start, fa, fb)))
+            } else {
+                None
+            }
+        }
+    };
+    let _ = std::fs::remove_dir_all(scratch);
+    out
+}
+
+/// a history is run (without its restarts being judged again) and the directory it leaves is cross-checked
+pub fn run_cross_case(ctx: &Ctx, case: &Case) -> Outcome {
+    let dir = ctx.fresh_dir();
+    let node = Node::boot_single(&dir);
+    let admin = connect_admin(&node);
+    let mut w = World { node: Some(node), dir: dir.clone(), admin, expected: BTreeMap::new(), seen: BTreeSet::new(), dbs: BTreeSet::new(), created_total: 0, partial_load_then_create: false, restarts: 0, kept_logs: 0, discarded_logs: 0, known_hits: BTreeMap::new(), lost: BTreeSet::new(), inc: [0; 4] };
+    let root = format!("{}-images", dir);
+    let mut fail = None;
+    let mut checked = 0u64;
+    for (i, st) in case.steps.iter().enumerate() {
+        if case.crash_at == Some(i) && !matches!(st, Step::RestartClean | Step::RestartKill) {
+            let (_r, images) = crash::record(&dir, &root, 60, || exec(ctx, &mut w, st));
+            // one crash image in the middle of the step, plus the last one
+            // (the images taken around the writes of the keys map and of the valid flag are where start-up has a decision
+            // to make: up to four of them, spread evenly)
+            let mut picks: Vec<usize> = if images.is_empty() { vec![] } else { vec![images.len() / 2, images.len() - 1] };
+            let decisive: Vec<usize> = (0..images.len()).filter(|i| images[*i].label.contains("keys-nun.keys") || images[*i].label.contains("is-oplog.valid")).collect();
+            for j in 0..decisive.len().min(4) {
+                picks.push(decisive[j * decisive.len() / decisive.len().min(4)]);
+            }
+            picks.sort();
+            picks.dedup();
+            for pi in picks {
+                checked += 1;
+                if let Some((sig, d)) = cross_check_dir(&images[pi].dir, &format!("{}-x", dir)) {
+                    fail = Some((sig, format!("crash image before `{}` of step {} {:?}: {}", images[pi].label, i, st, d)));
+                    break;
+                }
+            }
+            let _ = std::fs::remove_dir_all(&root);
+        } else {
+            let _ = exec(ctx, &mut w, st);
+        }
+        if fail.is_some() {
+            break;
+        }
+    }
+    if fail.is_none() {
+        // the directory as a kill leaves it now
+        w.node = None;
+        checked += 1;
+        fail = cross_check_dir(&dir, &format!("{}-x", dir));
+    }
+    drop(w);
+    ctx.drop_dir(&dir);
+    let mut out = Outcome::ok(true);
+    out.classes.push("cross-checked-with-the-real-binary");
+    out.counters.push(("directories_started_with_the_real_binary", checked));
+    out.fail = fail;
+    out
+}
+
 pub fn run(ctx: &Ctx, rep: &mut Report) {
     crate::interpose::virtual_clock(true);
     enumerate(ctx, rep, "fixed-scenarios", fixed().into_iter(), |c| run_case(ctx, c));
@@ -426,9 +624,23 @@ pub fn run(ctx: &Ctx, rep: &mut Report) {
         let n = ctx.amount(3000, 60_000);
         explore_with(ctx, rep, "histories", n, 600, case_strategy(), |c| run_case(ctx, c));
     }
+    if rep.failures.is_empty() {
+        if std::path::Path::new(&binary_path()).exists() {
+            enumerate(ctx, rep, "real-binary-cross-check-fixed", fixed().into_iter().filter(|c| c.crash_at.is_some()), |c| run_cross_case(ctx, c));
+            if rep.failures.is_empty() {
+                let n = ctx.amount(48, 1600);
+                explore_with(ctx, rep, "real-binary-cross-check", n, 12, case_strategy(), |c| run_cross_case(ctx, c));
+            }
+        } else {
+            rep.inconclusive.push(format!("real binary {} not found: cross-check skipped", binary_path()));
+        }
+    }
 }
 
-pub fn replay(ctx: &Ctx, _engine: &str, case: &J) -> Result<Option<(String, String)>, String> {
+pub fn replay(ctx: &Ctx, engine: &str, case: &J) -> Result<Option<(String, String)>, String> {
     crate::interpose::virtual_clock(true);
+    if engine.starts_with("real-binary-cross-check") {
+        return replay_guarded::<Case>(ctx, case, |c| run_cross_case(ctx, c));
+    }
     replay_guarded::<Case>(ctx, case, |c| run_case(ctx, c))
 }
